@@ -199,7 +199,10 @@ class BinarySearchTreeAdapted(Sampling):
 
     def sample_with_us(self, us: np.array):
         # find the bucket where to sample the state
-        bucket_positions = np.searchsorted(self._cum_ps, us)
+        # rounding can leave a uniform (slightly) above the last cumulative probability: stay in the last bucket
+        bucket_positions = np.minimum(
+            np.searchsorted(self._cum_ps, us), len(self._cum_ps) - 1
+        )
         bucket_coordinates = [
             self._buckets_coordinates[bucket_position]
             for bucket_position in bucket_positions
@@ -215,8 +218,10 @@ class BinarySearchTreeAdapted(Sampling):
         ):
             if self._is_axis[bucket_position]:
                 # find the position of the state
-                state_ith_pos = np.searchsorted(
-                    self._precomputed_cum_p_for_axes[bucket_position], prob
+                cum_p_axis = self._precomputed_cum_p_for_axes[bucket_position]
+                # same remark: never step past the last state of the bucket (it would be the origin or outside the grid)
+                state_ith_pos = min(
+                    np.searchsorted(cum_p_axis, prob), len(cum_p_axis) - 1
                 )
                 a_c, b_c = list(zip(*these_bucket_coordinates))
                 state = tuple(
